@@ -11,6 +11,8 @@ from . import ode_oracles as O
 from .c08 import report, TOL
 from . import rhs2_spec as S2
 
+CLAIM_MORE = "NOW PROVED (coq/Props/C07x.v, 41 statements, replacing 'numerical only' for these clauses): the SIR hierarchy under uniform rho as identities rhs_big(Phi x) = DPhi(x) * rhs_small(x) between the right-hand sides GENERATED from analytic.py, Phi a polynomial map in theta and DPhi its formal derivative (proved once to be the derivative): EBCM -> super-compact -> compact pairwise, -> compact effective degree, -> effective degree; every wrapper's closures are the polynomial (1-rho)P_k and its formal derivatives and its initial vector lies on the manifold; preferential-mixing EBCM = EBCM for uncorrelated mixing (continuous vector field; discrete-time in lock-step for every number of steps); the returned S, I, R coincide given ODE uniqueness as an explicit hypothesis."
+
 CLAIM = dict(
     text="Machine-checked theorems (coq/Props/C07.v, closed under the global context) over right-hand sides GENERATED from EoN/analytic.py on every run: "
          "on a single degree class k (regular graph) heterogeneous mean-field SIS = homogeneous mean-field SIS with n=k, compact pairwise SIS/SIR = homogeneous "
